@@ -162,6 +162,38 @@ func runC13(c *core.Ctx) {
 
 // prefixDerived: does the backward slice of v (within the function tree)
 // contain a load of a string field of the wrapper receiver, or a nameMap call?
+// sliceHasUp is sliceHas that also looks through the parameters of private
+// helpers: a parameter counts if EVERY call site of its helper passes a value
+// whose slice has pred.
+func sliceHasUp(v ssa.Value, pred func(ssa.Value) bool, depth int) bool {
+	return sliceHas(v, func(x ssa.Value) bool {
+		if pred(x) {
+			return true
+		}
+		p, ok := x.(*ssa.Parameter)
+		if !ok || depth <= 0 {
+			return false
+		}
+		h := p.Parent()
+		sites := privateCallSites(h)
+		if len(sites) == 0 {
+			return false
+		}
+		pi := -1
+		for i, q := range h.Params {
+			if q == p {
+				pi = i
+			}
+		}
+		for _, site := range sites {
+			if pi < 0 || pi >= len(site.Common().Args) || !sliceHasUp(site.Common().Args[pi], pred, depth-1) {
+				return false
+			}
+		}
+		return true
+	})
+}
+
 func sliceHas(v ssa.Value, pred func(ssa.Value) bool) bool {
 	seen := map[ssa.Value]bool{}
 	var walk func(v ssa.Value, d int) bool
